@@ -493,6 +493,7 @@ def flatten_body(methods, body, depth=3, consts=None, stop=(), ho_only=False, im
         body = _inline_local_closures(body)
     if impure and depth > 0:
         body = _hoist_nested(methods, body, stop)
+    body = _counting_whiles(body)
     for st in body:
         if isinstance(st, ast.Assign) and len(st.targets) == 1 and isinstance(st.targets[0], ast.Name) and isinstance(st.value, (ast.Tuple, ast.List)) \
                 and all(_pure_arg(x) for x in st.value.elts):
@@ -554,6 +555,58 @@ def flatten_body(methods, body, depth=3, consts=None, stop=(), ho_only=False, im
                 h.body = flatten_body(methods, h.body, depth, consts, stop, ho_only, impure)
                 hs.append(h)
             st.handlers = hs
+        out.append(st)
+    return out
+
+
+def _counting_whiles(body):
+    """`k = a; while k < b: BODY; k += 1` with integer constants a, b, the counter not otherwise assigned in BODY and no break / continue:
+    `for k in range(a, b): BODY` (the constant-trip loop can then be unrolled like any other).  The counter's final value is restored by an
+    assignment after the loop."""
+    out = []
+    ints = {}
+    for st in body:
+        if isinstance(st, ast.Assign) and len(st.targets) == 1 and isinstance(st.targets[0], ast.Name):
+            if isinstance(st.value, ast.Constant) and isinstance(st.value.value, int) and not isinstance(st.value.value, bool):
+                ints[st.targets[0].id] = st.value.value
+            else:
+                ints.pop(st.targets[0].id, None)
+            out.append(st)
+            continue
+        conv = None
+        if isinstance(st, ast.While) and not st.orelse and isinstance(st.test, ast.Compare) and len(st.test.ops) == 1 and len(st.body) >= 2:
+            t = st.test
+            l, op, r = t.left, t.ops[0], t.comparators[0]
+            if isinstance(l, ast.Name) and l.id in ints and isinstance(r, ast.Constant) and isinstance(r.value, int) and isinstance(op, (ast.Lt, ast.LtE)):
+                k = l.id
+                last = st.body[-1]
+                inc = (isinstance(last, ast.AugAssign) and isinstance(last.op, ast.Add) and isinstance(last.target, ast.Name) and last.target.id == k
+                       and isinstance(last.value, ast.Constant) and last.value.value == 1) or \
+                      (isinstance(last, ast.Assign) and len(last.targets) == 1 and isinstance(last.targets[0], ast.Name) and last.targets[0].id == k
+                       and isinstance(last.value, ast.BinOp) and isinstance(last.value.op, ast.Add) and isinstance(last.value.left, ast.Name)
+                       and last.value.left.id == k and isinstance(last.value.right, ast.Constant) and last.value.right.value == 1)
+                inner = st.body[:-1]
+                stored = {n.id for s_ in inner for n in ast.walk(s_) if isinstance(n, ast.Name) and isinstance(n.ctx, (ast.Store, ast.Del))}
+                jumps = any(isinstance(n, (ast.Break, ast.Continue)) for s_ in st.body for n in ast.walk(s_))
+                if inc and k not in stored and not jumps:
+                    hi = r.value + (1 if isinstance(op, ast.LtE) else 0)
+                    lo = ints[k]
+                    f_ = ast.For(target=ast.Name(id=k, ctx=ast.Store()),
+                                 iter=ast.Call(func=ast.Name(id='range', ctx=ast.Load()), args=[ast.Constant(value=lo), ast.Constant(value=hi)], keywords=[]),
+                                 body=inner or [ast.Pass()], orelse=[])
+                    after = ast.Assign(targets=[ast.Name(id=k, ctx=ast.Store())], value=ast.Constant(value=max(lo, hi)))
+                    for n_ in (f_, after):
+                        ast.copy_location(n_, st)
+                        ast.fix_missing_locations(n_)
+                    conv = [f_, after]
+                    ints[k] = max(lo, hi)
+        if conv is not None:
+            out.extend(conv)
+            continue
+        # anything else that may assign a tracked counter forgets it
+        for n in ast.walk(st):
+            if isinstance(n, ast.Name) and isinstance(n.ctx, (ast.Store, ast.Del)):
+                ints.pop(n.id, None)
         out.append(st)
     return out
 
